@@ -48,6 +48,16 @@ class Rx:
         return "Rx(%r)" % self.p
 
 
+# string patterns whose SOURCE differs from their value: `$word` is text inside a string, `{{`/`}}` spell braces, `{$cv}`
+# interpolates the flow variable $cv (= "Ann", assigned in front of the match statement)
+RICH_SRC = {
+    "costs $five": '"costs $five"',
+    "{slot} is $usd": '"{{slot}} is $usd"',
+    "Ann owes $amount": '"{$cv} owes $amount"',
+    "Ann": '"{$cv}"',
+    "a $b {c}": '"a $b {{c}}"',
+    "$lead and Ann": '"$lead and {$cv}"',
+}
 RX_INST = {"a": "xa", "b": "b", "^ab": "abz", "c$": "zc", "a.c": "a-c", "x|y": "y"}
 
 
@@ -60,6 +70,8 @@ def gen_pat(rng, d, filtered_p=0.01):
         if k == "float":
             return rng.choice([0.5, 1.5, 2.25])
         if k == "str":
+            if rng.random() < 0.2:
+                return rng.choice(sorted(RICH_SRC))
             return rng.choice(["ab", "abc", "b", "xyz", ""])
         if k == "bool":
             return rng.choice([True, False])
@@ -185,7 +197,7 @@ def render(p):
     if isinstance(p, dict):
         return "{" + ", ".join('"%s": %s' % (k, render(x)) for k, x in p.items()) + "}"
     if isinstance(p, str):
-        return '"' + p + '"'
+        return RICH_SRC.get(p, '"' + p + '"')
     return repr(p)
 
 
@@ -342,7 +354,7 @@ def run_pair(case):
         extras["zz"] = [1, {"a": 2}]
     # a third of the pairs use an action event (received through ActionEvent.from_umim_event, with an action_uid)
     evname = rng.choice(["E", "E", "E", "E", "PairActionFinished", "PairActionUpdated"])
-    src = "flow main\n  match %s(p=%s)\n  send Done()\n  match Never()\n" % (evname, render(p))
+    src = "flow main\n  $cv = \"Ann\"\n  match %s(p=%s)\n  send Done()\n  match Never()\n" % (evname, render(p))
     L["random"].reset(seed=case["seed"])
     _C["evals"] = 0
     _C["viol"] = []
